@@ -8,6 +8,14 @@ VERIF = Path(__file__).resolve().parent.parent
 PROPS = [json.loads(l)["id"] for l in open(VERIF / "properties.jsonl")]
 
 CHECKS = {
+    "C04": dict(cat="model_checking", engine="StdFb", ref="§5 C04",
+                tech="TLA+ StdFb spec (history definitions = state machines, model-checked with TLC) + TLC trace validation of recorded FB calls",
+                text="TLC proves the StdFb state machines equal the history-based IEC definitions of TON/TOF/TP/R_TRIG/F_TRIG on every call "
+                     "history up to the bound, plus ET<=PT, ET monotone, TP non-retriggerable, counter saturation, bistable dominance and "
+                     "instance independence; TLC-exported and seeded random call scripts (two interleaved instances, PT/PV incl. 0, negative, "
+                     "type bounds, dt=0 bursts, PT changed while timing) run through the public step structs and through an ST program on the "
+                     "real runtime, and every call's outputs are validated against the machines by TLC.",
+                note="1 tick = 1 ms; ET compared only where the property constrains it; 64-bit counter bounds outside TLC integers are not exercised"),
     "C06": dict(cat="model_checking", engine="RuntimeCycle", ref="§5 C06",
                 tech="TLA+ RuntimeCycle spec model-checked with TLC; recorded runs of the real runtime trace-validated against it",
                 text="TLC checks the task-model invariants (due set, priority order, at most once, background last, no replay) on "
@@ -62,6 +70,8 @@ def main():
             "add_only": True,
         },
         "engines": [
+            {"name": "StdFb", "path": "spec/StdFb.tla", "serves_properties": ["C04"],
+             "kind_free_text": "TLA+ module + MC instance + trace refinement; harness sub-commands fb-gen / fb-run"},
             {"name": "RuntimeCycle", "path": "spec/RuntimeCycle.tla", "serves_properties": ["C06", "C07", "C08"],
              "kind_free_text": "TLA+ module + MC instance + trace refinement; harness sub-commands cycle-gen / cycle-run"},
         ],
